@@ -172,9 +172,9 @@ def load_known():
 class Case:
     """one protocol line, the builds it applies to, its input class (for the histogram) and an optional
     property oracle evaluated on the *implementation's* output"""
-    __slots__ = ('line', 'builds', 'cls', 'oracle', 'sig', 'spec', 'nomodel')
+    __slots__ = ('line', 'builds', 'cls', 'oracle', 'sig', 'spec', 'nomodel', 'canon', 'spec_when')
 
-    def __init__(self, line, builds=('ark', 'min'), cls='', oracle=None, sig=None, spec=None, nomodel=False):
+    def __init__(self, line, builds=('ark', 'min'), cls='', oracle=None, sig=None, spec=None, nomodel=False, canon=None, spec_when=None):
         self.line = line
         self.builds = builds
         self.cls = cls
@@ -182,6 +182,8 @@ class Case:
         self.sig = sig            # signature used to match known findings
         self.spec = spec          # a `spec.*` line whose driver output the implementation must reproduce
         self.nomodel = nomodel    # oracle only (e.g. RNG-driven samplers): no model comparison
+        self.spec_when = spec_when  # predicate on the implementation output: compare with the spec line only when it holds
+        self.canon = canon        # canonicalisation of the implementation's output before it is compared with the model
 
 
 def main():
@@ -295,7 +297,7 @@ def main():
                 impl_out[(k, bld)] = o
         if driver_ok:
             midx = [k for k in idx if not cases[k].nomodel]
-            dmode = 'min' if bld == 'min' else 'ark'
+            dmode = 'min' if bld == 'min' else 'ark'   # the r1cs build is the arkworks build plus gadgets
             outs = run_lines([DRIVER, dmode], [cases[k].line for k in midx])
             for k, o in zip(midx, outs):
                 model_out[(k, bld)] = o
@@ -330,9 +332,9 @@ def main():
                     violations.append(dict(kind='oracle', sig=sig, detail='%s [%s] %s -> %s' % (fail, bld, c.line[:400], io[:200]),
                                            lines=[dict(line=c.line, builds=[bld], spec=c.spec)], expected=fail, actual=io))
                     continue
-            if c.spec and k in spec_out:
+            if c.spec and k in spec_out and (c.spec_when is None or c.spec_when(io)):
                 so = spec_out[k]
-                if so != io:
+                if so != (c.canon(io) if c.canon else io):
                     violations.append(dict(kind='oracle', sig=sig, detail='implementation differs from the specification: [%s] %s -> %s, spec %s -> %s'
                                            % (bld, c.line[:400], io[:200], c.spec[:200], so[:200]),
                                            lines=[dict(line=c.line, builds=[bld], spec=c.spec)], expected=so, actual=io))
@@ -340,7 +342,8 @@ def main():
             mo = model_out.get((k, bld))
             if mo is not None and not c.nomodel:
                 stats['disagreements_checked'] += 1
-                if mo != io:
+                io_c = c.canon(io) if c.canon else io
+                if mo != io_c:
                     violations.append(dict(kind='model', sig=sig, detail='model and implementation disagree: [%s] %s -> impl %s, model %s'
                                            % (bld, c.line[:400], io[:200], mo[:200]),
                                            lines=[dict(line=c.line, builds=[bld], spec=c.spec)], expected=mo, actual=io))
